@@ -2,8 +2,8 @@
 
 Space: tilt (tx, ty) from {0, +-2, 7.5}^2 mrad x dz in {1, 4.3, -2} x grids x energies x band-limited seeded waves and plane
 waves; tilt given as metadata base tilt, as an N x 2 BeamTilt ensemble and as BeamTilt2D (x distribution with y scalar,
-both distributions); and HISTORIES: every sequence (depth 2 quick / 3 thorough) of calls from a 32-event menu (4 tilt kinds incl.
-an N x 2 ensemble x 2 distances x 2 grids x 2 energies) on ONE FresnelPropagator object, whose kernel is cached under a key.
+both distributions); and HISTORIES: every sequence (depth 2 quick / 3 thorough) of calls from a 48-event menu (6 tilt kinds incl.
+an N x 2 ensemble and per-axis x / y ensembles with equal values x 2 distances x 2 grids x 2 energies) on ONE FresnelPropagator object, whose kernel is cached under a key.
 Oracle: propagate(tilted wave) == fft_shift(propagate(untilted wave), +dz tan(t) / sampling); a tilted plane wave keeps
 unit modulus through vacuum; every representation of the same tilts gives the same members in the same order.
 """
@@ -16,7 +16,7 @@ META = dict(
     technique="exhaustive enumeration of tilt pairs (all sign combinations) x distances x grids x tilt representations; metamorphic oracle (Fourier shift)",
     text="All 16 tilt pairs from {0, 2, -2, 7.5}^2 mrad, 3 distances (one negative), 3 grids, 1-2 energies, seeded band-limited waves and plane waves are "
          "propagated with the real FresnelPropagator and compared with the untilted propagation shifted by dz tan(t); the same tilts given as base "
-         "tilt metadata, N x 2 ensemble and per-axis distributions must give identical members in the same order. A breadth-first search over call histories on one propagator object (32-event menu, "
+         "tilt metadata, N x 2 ensemble and per-axis distributions must give identical members in the same order. A breadth-first search over call histories on one propagator object (48-event menu, "
          "depth 2 / 3, never merged) requires the shift law for the last call whatever the propagator was used for before.",
     note="Bound: grids <= 16x12, tilts <= 7.5 mrad (small-angle regime of the statement). Tolerance 1e-4 of max|psi|.",
 )
@@ -39,9 +39,10 @@ def check(ctx):
 
 
 # event menu for the history explorer: (tilt kind, dz, grid index, energy factor)
-HT = ["none", "a", "b", "ens"]
+HT = ["none", "a", "b", "ens", "ensx", "ensy"]
 HTILT = {"none": (0.0, 0.0), "a": (2.0, -2.0), "b": (7.5, 0.0)}
 HENS = [(0.0, 1.5), (2.0, -2.0), (-7.5, 2.0)]
+HAX = (1.5, -3.0, 6.0)
 EVENTS = [(t, dz, g, ef) for t in HT for dz in (1.0, 4.3) for g in (0, 1) for ef in (1.0, 2.0)]
 
 
@@ -56,6 +57,11 @@ def _hist_call(prop, ev, e0):
     if t == "ens":
         arr = np.broadcast_to(x, (len(HENS),) + x.shape).copy()
         w = abtem.Waves(arr, energy=e0 * ef, sampling=samp, ensemble_axes_metadata=[TiltAxis(label="tilt", values=tuple(HENS))])
+    elif t in ("ensx", "ensy"):  # per-axis tilt ensembles with EQUAL values in different directions
+        from abtem.core.axes import AxisAlignedTiltAxis
+
+        arr = np.broadcast_to(x, (len(HAX),) + x.shape).copy()
+        w = abtem.Waves(arr, energy=e0 * ef, sampling=samp, ensemble_axes_metadata=[AxisAlignedTiltAxis(direction=t[-1], values=tuple(HAX))])
     else:
         tilt = HTILT[t]
         md = {} if tilt == (0.0, 0.0) else {"base_tilt_x": tilt[0], "base_tilt_y": tilt[1]}
@@ -76,9 +82,9 @@ def _hist_expected(ev, e0):
         t, dz, g, ef = ev
         gpts, samp = GRIDS[g]
         base = _hist_call(FresnelPropagator(), ("none", dz, g, ef), e0)
-        tilts = HENS if t == "ens" else [HTILT[t]]
+        tilts = HENS if t == "ens" else ([(v, 0.0) for v in HAX] if t == "ensx" else ([(0.0, v) for v in HAX] if t == "ensy" else [HTILT[t]]))
         out = [np.asarray(fft_shift(base, np.array([dz * np.tan(tx * 1e-3) / samp[0], dz * np.tan(ty * 1e-3) / samp[1]]))) for tx, ty in tilts]
-        _EXPECT[key] = np.stack(out) if t == "ens" else out[0]
+        _EXPECT[key] = np.stack(out) if t.startswith("ens") else out[0]
     return _EXPECT[key]
 
 
